@@ -12,6 +12,27 @@ LEVEL = 'proof'
 THEOREMS = ['Jug.C18.collapsed_defines_none', 'Jug.C18.expanded_defines_inner', 'Jug.C18.compound_value', 'Jug.C18.cleanup_keeps_compound', 'Jug.C18.collapsed_contributes_one', 'Jug.C18.compound_counts_for_barrier']
 
 
+def status_rows(path, store, cached, cache_file):
+    """the table the real `jug status` prints for the jugfile on this store object"""
+    import jug.subcommands.status as st
+    from jugverif import graphcheck as gc, jugenv
+    o = jugenv.options()
+    o.jugfile = path
+    o.jugdir = store
+    o.status_cache = cached
+    o.status_cache_file = cache_file or ':memory:'
+    o.status_cache_clear = False
+    o.short = False
+    out = []
+    o.print_out = lambda *a: out.append(' '.join(str(x) for x in a))
+    gc.reset_jug()
+    try:
+        st.status.run(options=o)
+    finally:
+        gc.reset_jug()
+    return gc.parse_table(out)
+
+
 def real_cleanup(store, tasks):
     import jug.subcommands.cleanup as cl
     o = jugenv.options()
@@ -29,7 +50,7 @@ def real_cleanup(store, tasks):
 def check(run):
     quick = run.tier == 'quick'
     run.rule = ('generated jugfiles with compound tasks (whose builders create chains of inner tasks; several per file, mixed with barriers/bvalue) x store states at load time (nothing, some inner results, all inner results, '
-                'compound value present with and without inner results): task list of the real jug.init vs the Lean loader; sequences execute -> reload -> execute -> real cleanup -> reload -> execute on in-memory, file and '
+                'compound value present with and without inner results): task list of the real jug.init vs the Lean loader, and the tables of the real `jug status` / `jug status --cache` on each such state (one entry per loaded task); sequences execute -> reload -> execute -> real cleanup -> reload -> execute on in-memory, file and '
                 'redis-protocol stores: value of the compound = sequential evaluation at every stage, no inner task after collapse, nothing re-executed, cleanup removes the inner results and keeps the compound; '
                 'non-trivial = a load in which one compound is collapsed and another expanded; distinct by (program, store state)')
     run.assumptions = ['compound building functions are deterministic and create tasks only', 'stores are sound (values are the reference values)']
@@ -104,6 +125,24 @@ def check(run):
                                  'with nothing changed in between' % (t.name, R['hash_key'].get(t.hash(), '?'), S, len(d1), len(d2), c1, c2, c3), rp)
                         break
                 jug.task.Task.store = _saved_store
+                # counted like any other: `jug status` (uncached and with a cache) sees exactly the tasks of the load, compound expanded or collapsed
+                names_loaded = sorted(t.name for t in tasks)
+                try:
+                    _, r_u, t_u = status_rows(R['path'], s, False, None)
+                    _, r_c, t_c = status_rows(R['path'], s, True, os.path.join(scratch, 'st-%d-%d.sqlite' % (pi, si)))
+                    run.count('compound_status_tables')
+                    per_name = {nm: names_loaded.count(nm) for nm in set(names_loaded)}
+                    got_u = {k: sum(v) for k, v in r_u.items()}
+                    if got_u != per_name:
+                        run.fail('compound-miscounted', '`jug status` counts %s but the load has the tasks %s (store state %s)' % (got_u, per_name, S), rp)
+                    elif (r_c, t_c) != (r_u, t_u):
+                        run.fail('compound-miscounted', '`jug status --cache` prints %s / Total %s, uncached %s / Total %s (store state %s)' % (r_c, t_c, r_u, t_u, S), rp)
+                except (Exception, SystemExit) as e:
+                    run.fail('compound-status-raises', '`jug status` / `jug status --cache` on store state %s ends with %s: %s' % (S, type(e).__name__, str(e)[:200]), rp)
+                finally:
+                    from jugverif import graphcheck as _gc
+                    _gc.reset_jug()
+                    jug.task.Task.store = _saved_store
                 collapsed = [c for c in inner_of if c in S and c in got_keys]
                 expanded = [c for c in inner_of if c not in S and c in got_keys]
                 run.case((pi, tuple(S), run.seed), nontrivial=bool(collapsed) and bool(expanded))
